@@ -222,7 +222,7 @@ func TestC02(t *testing.T) {
 
 // TestC02Product enumerates form x variant x TTL position x ISN completely.
 func TestC02Product(t *testing.T) {
-	rec := NewRecorder("C02", "C02Product", "full product: reply form x variant x strict/relaxed x TTL range in {1..3, 2..4, 128..130, 253..255} x SACK ISN set; exhaustive over that finite product")
+	rec := NewRecorder("C02", "C02Product", "full product: reply form x variant x strict/relaxed x TTL range in {1..3, 2..4, 128..130, 253..255} x SACK ISN set, plus SACK runs whose duplicate ACKs report two blocks with a hole between them for every position of the 2^32 wrap relative to the blocks; exhaustive over that finite product")
 	rec.Exhaustive = true
 	RunCases(t, rec, func(yield func(*Scenario) bool) {
 		var forms []FormSpec
@@ -270,6 +270,21 @@ func TestC02Product(t *testing.T) {
 						if !yield(sc) {
 							return
 						}
+					}
+				}
+			}
+		}
+		// SACK around the 2^32 wrap: the target gets every probe; the byte of TTL a is received but its duplicate ACK
+		// is lost, the probe of TTL a+1 is lost, so the ACK for TTL a+2 reports two blocks with a hole between
+		// them; the initial sequence number puts the wrap at every position relative to the two blocks
+		for k := 0; k <= 6; k++ {
+			for a := 1; a <= 3; a++ {
+				for _, strict := range []bool{true, false} {
+					sc := &Scenario{Variant: "sack", Strict: strict, MinTTL: 1, MaxTTL: 6, TimeoutMs: 300, DelayMs: 10, PollMs: 10, Target: "127.9.8.7", Port: 0,
+						Script: FlowScript{DestDist: 1, Default: HopSpec{DelayUs: 5000}, Hops: map[int]HopSpec{a: {DelayUs: 5000, AckLost: true}, a + 1: {Silent: true}}},
+						Sack:   SackCfg{Permit: true, TS: k%2 == 0, ClientNxt: uint32(0x100000000 - int64(k)), ServerISN: 5, SynAckUs: 100}}
+					if !yield(sc) {
+						return
 					}
 				}
 			}
